@@ -15,6 +15,6 @@ import json,sys,collections
 inv=json.load(open(sys.argv[1]))
 c=collections.Counter(s['kind'] for s in inv['sites'])
 print("fixture sites:",dict(c),"vars:",len(inv['vars']))
-assert c['maprange']>=12 and c['sync']>=15 and c['go']>=3 and c['access']>=10 and c['loop']>=15, c
+assert c['maprange']>=15 and c['sync']>=25 and c['go']>=8 and c['access']>=25 and c['loop']>=18, c
 PY
 echo "instrumenter self-test: ok"
